@@ -237,8 +237,9 @@ Lemma step_req_outcome : forall w r F w' e wr,
   let a := apply_policies (v_spec w) (v_st w) r in
   outcome (v_spec w) (fst (exec (st_phase (v_st w)) a)) (snd (exec (st_phase (v_st w)) a)) w w' e wr.
 Proof.
-  intros w r F w' e wr H a. unfold step_req in H. fold a in H.
-  destruct (exec (st_phase (v_st w)) a) as [k u]. cbn [fst snd].
+  intros w r F w' e wr H a. unfold step_req in H.
+  destruct (c_job (v_ctl w)); cbn [negb] in H; [|inversion H; subst; apply outcome_noop].
+  fold a in H. destruct (exec (st_phase (v_st w)) a) as [k u]. cbn [fst snd].
   destruct k.
   - apply (sync_job_outcome w u F); exact H.
   - apply (kill_pods_outcome true w r0 None u F); exact H.
@@ -457,6 +458,7 @@ Lemma kill_pods_ids : forall fixed w rt tg u F w' e wr,
   kill_pods_gen fixed w rt tg u F = (w', e, wr) -> pod_ids (w_pods w') = pod_ids (w_pods w).
 Proof.
   intros fixed w rt tg u F w' e wr H. unfold kill_pods_gen in H.
+  destruct (c_vdel (v_ctl w)); [inversion H; reflexivity|].
   destruct tg as [[t|t p|]|].
   all: try (destruct (kill_select _ _ _ _ _) as [kill term0] eqn:Hsel;
             destruct (any_fault F kill); [inversion H; subst; clear H|
@@ -473,6 +475,7 @@ Theorem kill_zeroes_counters : forall w rt tg u F w',
   st_cnt (w_st w') = c0 /\ st_tsc (w_st w') = [].
 Proof.
   intros w rt tg u F w' H. unfold kill_pods_prefix, kill_pods_gen in H.
+  destruct (c_vdel (v_ctl w)); [inversion H|].
   destruct tg as [[t|t p|]|].
   all: try (destruct (kill_select _ _ _ _ _) as [kill term0] eqn:Hsel;
             destruct (any_fault F kill); [inversion H|
@@ -489,15 +492,20 @@ Definition final_inv (w : world) : Prop :=
 Lemma exec_final : forall p a, is_final p = true -> exec p a = (KKill RSoft, UNil).
 Proof. destruct p; cbn; intros; try discriminate; reflexivity. Qed.
 
+(* a job deleted and re-created under the same name is a new job *)
+Definition same_job (o : op) : Prop := match o with OReplaceJob _ => False | _ => True end.
+
 Lemma final_step : forall w o w' e wr,
-  final_inv w -> step w o = (w', e, wr) ->
+  final_inv w -> same_job o -> step w o = (w', e, wr) ->
   final_inv w' /\ st_phase (v_st w') = st_phase (v_st w) /\
   incl (pod_ids (w_pods w')) (pod_ids (w_pods w)).
 Proof.
-  intros w o w' e wr [Hf He] H. destruct o; cbn in H.
+  intros w o w' e wr [Hf He] Hsj H. destruct o; cbn in H.
   - (* a request *)
     pose proof (step_req_outcome _ _ _ _ _ _ H) as O. cbv zeta in O.
     unfold step_req in H. rewrite (exec_final _ _ Hf) in H, O. cbn [fst snd] in O.
+    destruct (c_job (v_ctl w)); cbn [negb] in H;
+      [|inversion H; subst; repeat split; auto using incl_refl].
     assert (Hp : st_phase (v_st w') = st_phase (v_st w)).
     { assert (Hs : start_phase (st_phase (v_st w)) = st_phase (v_st w))
         by (destruct (st_phase (v_st w)); try discriminate; reflexivity).
@@ -515,8 +523,13 @@ Proof.
     unfold pod_ids, remove_pod. intros x Hx. apply in_map_iff in Hx. destruct Hx as (p & <- & Hp).
     apply filter_In in Hp. apply in_map_iff. exists p. tauto.
   - inversion H; subst; clear H. destruct (w_pg w); cbn; repeat split; auto using incl_refl.
-  - inversion H; subst; clear H. unfold final_inv; cbn. rewrite He. repeat split; auto using incl_refl.
+  - destruct (c_job (v_ctl w) && negb (c_dirty (v_ctl w))); inversion H; subst; clear H;
+      unfold final_inv; cbn; rewrite ?He; repeat split; auto using incl_refl.
   - inversion H; subst; clear H. cbn. repeat split; auto using incl_refl.
+  - inversion H; subst; clear H. cbn. repeat split; auto using incl_refl.
+  - inversion H; subst; clear H. cbn. repeat split; auto using incl_refl.
+  - inversion H; subst; clear H. cbn. repeat split; auto using incl_refl.
+  - destruct Hsj.
   - inversion H; subst; clear H. cbn. repeat split; auto using incl_refl.
   - inversion H; subst; clear H. cbn. repeat split; auto using incl_refl.
 Qed.
@@ -525,16 +538,18 @@ Lemma run_cons : forall w o ops, run w (o :: ops) = run (fst (fst (step w o))) o
 Proof. reflexivity. Qed.
 
 Theorem final_phases_absorbing : forall ops w,
+  Forall same_job ops ->
   is_final (st_phase (v_st w)) = true -> st_phase (w_st w) = st_phase (v_st w) ->
   let w' := run w ops in
   st_phase (v_st w') = st_phase (v_st w) /\ st_phase (w_st w') = st_phase (v_st w) /\
   incl (pod_ids (w_pods w')) (pod_ids (w_pods w)).
 Proof.
-  induction ops as [|o ops IH]; intros w Hf He.
+  induction ops as [|o ops IH]; intros w Hsj Hf He.
   - cbn. repeat split; auto using incl_refl.
-  - cbv zeta. rewrite run_cons. destruct (step w o) as [[w1 e] wr] eqn:Hs. cbn [fst].
-    destruct (final_step w o w1 e wr (conj Hf He) Hs) as ([Hf1 He1] & Hp & Hi).
-    destruct (IH w1 Hf1 He1) as (A & B & C). repeat split; try congruence.
+  - inversion Hsj as [|? ? Ho Hsj']; subst.
+    cbv zeta. rewrite run_cons. destruct (step w o) as [[w1 e] wr] eqn:Hs. cbn [fst].
+    destruct (final_step w o w1 e wr (conj Hf He) Ho Hs) as ([Hf1 He1] & Hp & Hi).
+    destruct (IH w1 Hsj' Hf1 He1) as (A & B & C). repeat split; try congruence.
     eapply incl_tran; eauto.
 Qed.
 
@@ -542,9 +557,9 @@ Qed.
 Definition ver_inv (w : world) : Prop := st_version (w_st w) <= st_version (v_st w).
 
 Lemma ver_step : forall w o w' e wr,
-  ver_inv w -> step w o = (w', e, wr) -> ver_inv w' /\ st_version (w_st w) <= st_version (w_st w').
+  ver_inv w -> same_job o -> step w o = (w', e, wr) -> ver_inv w' /\ st_version (w_st w) <= st_version (w_st w').
 Proof.
-  intros w o w' e wr Hi H. unfold ver_inv in *. destruct o; cbn in H.
+  intros w o w' e wr Hi Hsj H. unfold ver_inv in *. destruct o; cbn in H.
   - pose proof (step_req_outcome _ _ _ _ _ _ H) as O. cbv zeta in O.
     pose proof (version_step _ _ _ _ _ _ H) as V.
     destruct (oc_api _ _ _ _ _ _ _ O) as [E|[E|[_ E]]]; rewrite E; cbn; lia.
@@ -552,22 +567,28 @@ Proof.
   - inversion H; subst; cbn; lia.
   - inversion H; subst; cbn; lia.
   - inversion H; subst; destruct (w_pg w); cbn; lia.
+  - destruct (c_job (v_ctl w) && negb (c_dirty (v_ctl w))); inversion H; subst; cbn; lia.
   - inversion H; subst; cbn; lia.
   - inversion H; subst; cbn; lia.
+  - inversion H; subst; cbn; lia.
+  - inversion H; subst; cbn; lia.
+  - destruct Hsj.
   - inversion H; subst; cbn; lia.
   - inversion H; subst; cbn; lia.
 Qed.
 
 Theorem version_monotone : forall ops w,
+  Forall same_job ops ->
   st_version (w_st w) <= st_version (v_st w) ->
   st_version (w_st w) <= st_version (w_st (run w ops)) /\
   st_version (w_st (run w ops)) <= st_version (v_st (run w ops)).
 Proof.
-  induction ops as [|o ops IH]; intros w Hi.
+  induction ops as [|o ops IH]; intros w Hsj Hi.
   - cbn. split; [lia|exact Hi].
-  - rewrite run_cons. destruct (step w o) as [[w1 e] wr] eqn:Hs. cbn [fst].
-    destruct (ver_step w o w1 e wr Hi Hs) as [Hi1 Hle].
-    destruct (IH w1 Hi1) as [A B]. split; [lia|exact B].
+  - inversion Hsj as [|? ? Ho Hsj']; subst.
+    rewrite run_cons. destruct (step w o) as [[w1 e] wr] eqn:Hs. cbn [fst].
+    destruct (ver_step w o w1 e wr Hi Ho Hs) as [Hi1 Hle].
+    destruct (IH w1 Hsj' Hi1) as [A B]. split; [lia|exact B].
 Qed.
 
 (* ---------- T8: counters partition -- refuted on the faithful model ---------- *)
